@@ -130,3 +130,19 @@ Theorem C09_preserved_window :
              In c (t_chain (finalizeBlockImpl fuel t idx preserve)).
 Proof. exact preserved_window. Qed.
 Print Assumptions C09_preserved_window.
+
+(* requested block [idx] vs actually finalized block [fin]: among the descendants of the new root only blocks
+   under a sibling of the ACTUAL final block are deallocated *)
+Theorem C09_only_siblings_of_actual_final :
+  forall fuel t idx preserve,
+  (idx =? root_of t) = false ->
+  forall tips' fin newRoot,
+  erase_tips fuel t (t_tips t) (lowest_dirty fuel t idx idx) = (tips', fin) ->
+  chain_at t (N.max (height_of t (root_of t)) (height_of t fin - preserve)) = Some newRoot ->
+  forall id b,
+  flookup (t_blocks t) id = Some b ->
+  descends fuel t id newRoot = true ->
+  flookup (t_blocks (finalizeBlockImpl fuel t idx preserve)) id = None ->
+  under_sibling fuel t fin id = true /\ (newRoot =? root_of t) = false.
+Proof. exact only_siblings_of_actual_final. Qed.
+Print Assumptions C09_only_siblings_of_actual_final.
